@@ -233,6 +233,23 @@ func registerIntrinsics(e *Engine) {
 		}
 		return FalseT
 	}
+	// vRunGoroutines(): run the goroutines created so far by go statements, in
+	// creation order (goroutines they create in turn included, up to 16).
+	I["vRunGoroutines"] = func(st *State, a []Value) Value {
+		for n := 0; len(st.pendingGo) > 0; n++ {
+			if n >= 16 {
+				st.abort("bound", "more than 16 goroutines")
+			}
+			g := st.pendingGo[0]
+			st.pendingGo = st.pendingGo[1:]
+			fv, ok := g.fn.(*FuncV)
+			if !ok {
+				st.unsupported("go statement on %T", g.fn)
+			}
+			st.Call(fv, g.args, nil)
+		}
+		return nil
+	}
 	// vWatchCaptured(f): from now on, every write to memory reachable from the
 	// variables captured by closure f (not through frames or the interpreter)
 	// is recorded as a "capwrite:" event. vWatchEnd() stops watching.
